@@ -14,7 +14,7 @@ What is a parameter, not a computation:
 * `eigh : matrix → eigenvalues × eigenvector-columns` (LAPACK via `numpy.linalg.eigh`) with the
   contract stated in `Props/C13.lean` (`EighContract`);
 * `argsort : vector → index list` (`numpy.argsort`; any permutation sorting the eigenvalues);
-* the standard-normal draws of `generate` (`arz`, the tape);
+* the standard-normal draws of `generate` (a flat tape of which `lambda_·dim` draws are consumed);
 * the population order after `population.sort(key=fitness, reverse=True)` is computed here
   (`sortDesc`, stable), keys are any type with a decidable `<`.
 -/
@@ -242,10 +242,19 @@ variable {α : Type} [RealLike α]
 def samplePoint (s : State α) (z : List α) : List α :=
   tab s.dim (fun j => vget s.centroid j + s.sigma * sumTo s.dim (fun k => vget z k * mget s.BD j k))
 
-/-- cma.py:122-124.  `arz` = the `lambda_ × dim` standard-normal draws (the tape);
-`indInit` = the `ind_init` argument. -/
-def generate {I : Type} (s : State α) (arz : List (List α)) (indInit : List α → I) : List I :=
-  arz.map (fun z => indInit (samplePoint s z))
+/-- cma.py:122 `numpy.random.standard_normal((self.lambda_, self.dim))`: the next `lambda_ · dim` draws of the
+tape, filled row by row (C order); `none` when the tape is too short. -/
+def drawArz (lam n : Nat) (tape : List α) : Option (List (List α) × List α) :=
+  if lam * n ≤ tape.length then
+    some ((List.range lam).map (fun i => (tape.drop (i * n)).take n), tape.drop (lam * n))
+  else none
+
+/-- cma.py:122-124.  `tape` = the standard-normal draws still to come; exactly `lambda_ · dim` of them are
+consumed; `indInit` = the `ind_init` argument.  Returns the `lambda_` individuals and the rest of the tape. -/
+def generate {I : Type} (s : State α) (tape : List α) (indInit : List α → I) : Option (List I × List α) :=
+  match drawArz s.lambda_ s.dim tape with
+  | none => none
+  | some (arz, rest) => some (arz.map (fun z => indInit (samplePoint s z)), rest)     -- :123-124
 
 end Generate
 
@@ -269,8 +278,8 @@ def lexLt {α : Type} [RealLike α] : List α → List α → Bool
 structure FitKey (α : Type) where
   wvalues : List α
 
-instance {α : Type} [RealLike α] : LT (FitKey α) := ⟨fun a b => lexLt a.wvalues b.wvalues = true⟩
-instance {α : Type} [RealLike α] : DecidableLT (FitKey α) :=
+instance fitKeyLT {α : Type} [RealLike α] : LT (FitKey α) := ⟨fun a b => lexLt a.wvalues b.wvalues = true⟩
+instance fitKeyDecLT {α : Type} [RealLike α] : DecidableLT (FitKey α) :=
   fun a b => inferInstanceAs (Decidable (lexLt a.wvalues b.wvalues = true))
 
 /-- the part of the new state computed before the eigen-decomposition -/
